@@ -79,6 +79,13 @@ def json_ops(doc):
                 lambda d, key=key, fld=fld: d[key][-1].pop(fld))
         add('duplicate-id:' + ax, ax, None,   # must iff >= 2 entries
             lambda d, key=key: _dup_id(d, key))
+        # ids that are not JSON strings: read as their text, so 7 and "7"
+        # are one id twice
+        for nm, raw in (('int', 7), ('float', 1.5), ('bool', True)):
+            add('typed-duplicate-id-%s:%s' % (nm, ax), ax, None,
+                lambda d, key=key, raw=raw: _typed_dup(d, key, raw))
+        add('id-number:' + ax, ax, None,
+            lambda d, key=key: d[key][0].__setitem__('id', 12345))
         add('blank-id:' + ax, ax, True,
             lambda d, key=key: d[key][0].__setitem__('id', ''))
         for nm, val in (('list', [1, 2]), ('string', 'x'), ('number', 7)):
@@ -144,6 +151,13 @@ def _dup_id(d, key):
     if len(d[key]) < 2:
         raise Skip()
     d[key][-1]['id'] = d[key][0]['id']
+
+
+def _typed_dup(d, key, raw):
+    if len(d[key]) < 2:
+        raise Skip()
+    d[key][0]['id'] = raw
+    d[key][-1]['id'] = str(raw)
 
 
 def _to_dense(d):
@@ -356,6 +370,10 @@ def check_loadable(ctx, path, doc, desc):
                         'but load_table raised %s: %s; case=%r' %
                         (type(e).__name__, e, desc))
     s = snap.snap(t)
+    # ids are text once loaded: a document id written as a JSON number is
+    # the id with that text
+    exp['obs_ids'] = [str(i) for i in exp['obs_ids']]
+    exp['samp_ids'] = [str(i) for i in exp['samp_ids']]
     if s.obs_ids != exp['obs_ids'] or s.samp_ids != exp['samp_ids'] or \
             s.D.shape != tuple(doc['shape']) or \
             not snap.bits_equal(s.D, exp['D']):
